@@ -126,3 +126,100 @@ package meta
 //@   requires rpi != nil
 //@   ensures result == nil ==> (rpi.Duration == 0 || rpi.Duration >= rpi.ShardGroupDuration)
 //@   assigns nothing
+
+// ================================================================ catalogue lookups (used by C13/C16 contracts)
+//@ prop C13 C16
+
+//@ func (*Data).Database
+//@   requires data != nil
+//@   ensures result == data.Databases[name]
+//@   assigns nothing
+
+//@ func (*Data).GetDatabase
+//@   requires data != nil
+//@   ensures result1 == nil ==> result0 != nil && result0 == data.Databases[name] && !result0.MarkDeleted
+//@   ensures result1 != nil ==> result0 == nil
+//@   assigns nothing
+
+//@ spec func rp_lookup(di *DatabaseInfo, name string) *RetentionPolicyInfo = \
+//@    name != "" ? di.RetentionPolicies[name] : (di.DefaultRetentionPolicy == "" ? nil : di.RetentionPolicies[di.DefaultRetentionPolicy])
+
+//@ func (*DatabaseInfo).RetentionPolicy
+//@   requires di != nil
+//@   ensures result == rp_lookup(di, name)
+//@   assigns nothing
+
+//@ func ErrRetentionPolicyNotFound
+//@   ensures result != nil
+//@   assigns nothing
+
+//@ func (*DatabaseInfo).GetRetentionPolicy
+//@   requires di != nil
+//@   ensures result1 == nil ==> result0 != nil && result0 == rp_lookup(di, name) && !result0.MarkDeleted
+//@   ensures result1 != nil ==> result0 == nil
+//@   assigns nothing
+
+//@ func (*Data).RetentionPolicy
+//@   requires data != nil
+//@   ensures result1 == nil ==> result0 != nil && data.Databases[database] != nil && result0 == rp_lookup(data.Databases[database], name) && !result0.MarkDeleted
+//@   ensures result1 != nil ==> result0 == nil
+//@   assigns nothing
+
+//@ func (*Data).GetClusterPtNum
+//@   requires data != nil
+//@   ensures result == data.ClusterPtNum
+//@   assigns nothing
+
+//@ func (*Data).checkStoreReady
+//@   requires data != nil
+//@   ensures (result == nil) == (data.ClusterPtNum != 0)
+//@   assigns nothing
+
+// ================================================================ C16: well-formed catalogue
+//@ prop C16
+
+// A new shard group is aligned to the policy's group duration, contains the timestamp, gets a fresh id.
+//@ func (*Data).newShardGroup
+//@   requires data != nil && rpi != nil && rpi.ShardGroupDuration > 0
+//@   requires timestamp <= models.MaxNanoTime && timestamp >= models.MinNanoTime
+//@   ensures result != nil && fresh(result)
+//@   ensures result.ID == old(data.MaxShardGroupID) + 1 && data.MaxShardGroupID == old(data.MaxShardGroupID) + 1
+//@   ensures result.StartTime <= timestamp && timestamp < result.EndTime
+//@   ensures aligned(result.StartTime - TIME_ZERO, rpi.ShardGroupDuration)
+//@   ensures result.EndTime == result.StartTime + rpi.ShardGroupDuration || result.EndTime == models.MaxNanoTime + 1
+//@   ensures result.EndTime <= models.MaxNanoTime + 1 && result.EndTime <= result.StartTime + rpi.ShardGroupDuration
+//@   ensures result.EngineType == engineType && result.Version == version && result.DeletedAt == TIME_ZERO && result.TruncatedAt == TIME_ZERO
+//@   assigns data.MaxShardGroupID
+
+// A command that fails leaves the catalogue unchanged: no id counter moves on an error return, and
+// nothing is allocated before validation (a measurement exists) has passed.
+//@ func (*Data).CreateShardGroup
+//@   requires data != nil
+//@   call (*Data).createIndexGroupIfNeeded
+//@     requires msti != nil
+//@   call (*Data).newShardGroup
+//@     requires msti != nil
+//@   call (*Data).createShards
+//@     requires msti != nil
+//@   on_error unchanged(data.MaxShardGroupID, data.MaxShardID, data.MaxIndexGroupID, data.MaxIndexID)
+
+// The default policy of a database exists (or is unset).
+//@ spec func wf_default(di *DatabaseInfo) bool = di.DefaultRetentionPolicy == "" || (di.DefaultRetentionPolicy in di.RetentionPolicies)
+
+//@ func (*Data).SetDefaultRetentionPolicy
+//@   requires data != nil
+//@   requires forall d string :: (d in data.Databases) ==> data.Databases[d] != nil && wf_default(data.Databases[d])
+//@   ensures result == nil ==> wf_default(data.Databases[database])
+//@   on_error unchanged(data.Databases[database].DefaultRetentionPolicy)
+
+//@ func (*Data).DropRetentionPolicy
+//@   requires data != nil
+//@   requires forall d string :: (d in data.Databases) ==> data.Databases[d] != nil && wf_default(data.Databases[d])
+//@   ensures result == nil && data.Databases[database] != nil ==> wf_default(data.Databases[database])
+
+// Strict weak order used to keep shard groups sorted: by effective end, then start.
+//@ spec func eff_end(g *ShardGroupInfo) Time = g.TruncatedAt != TIME_ZERO ? g.TruncatedAt : g.EndTime
+//@ func ShardGroupInfos.Less
+//@   requires 0 <= i && i < len(a) && 0 <= j && j < len(a)
+//@   ensures result == (eff_end(a[i]) < eff_end(a[j]) || (eff_end(a[i]) == eff_end(a[j]) && a[i].StartTime < a[j].StartTime))
+//@   assigns nothing
